@@ -148,13 +148,7 @@ func DumpIDL(ast *parser.Thrift) (string, error) {
 			sb.writeString(fmt.Sprintf("%s %s", typeName(f.FunctionType), f.Name))
 			sb.writeString("(")
 			for i, ag := range f.Arguments {
-				required := ""
-				if ag.Requiredness.IsOptional() {
-					required = "optional "
-				} else if ag.Requiredness.IsRequired() {
-					required = "required "
-				}
-				sb.writeString(fmt.Sprintf("%d: %s%s %s", ag.ID, required, typeName(ag.Type), ag.Name))
+				printField(&sb, ag)
 				if i != len(f.Arguments)-1 {
 					sb.writeString(", ")
 				}
@@ -164,14 +158,8 @@ func DumpIDL(ast *parser.Thrift) (string, error) {
 				sb.writeString("throws ")
 				sb.writeString("(")
 				for i, th := range f.Throws {
-					required := ""
-					if th.Requiredness.IsOptional() {
-						required = "optional "
-					} else if th.Requiredness.IsRequired() {
-						required = "required "
-					}
-					sb.writeString(fmt.Sprintf("%d: %s%s %s", th.ID, required, typeName(th.Type), th.Name))
-					if i != len(f.Arguments)-1 {
+					printField(&sb, th)
+					if i != len(f.Throws)-1 {
 						sb.writeString(", ")
 					}
 				}
@@ -271,26 +259,32 @@ func printStruct(sb *stringBuilder, s *parser.StructLike, structType string) {
 	sb.writeString("{\n")
 	for _, f := range s.Fields {
 		printComment(sb, f.ReservedComments, "    ")
-		required := ""
-		if f.Requiredness.IsOptional() {
-			required = "optional "
-		} else if f.Requiredness.IsRequired() {
-			required = "required "
-		}
-		sb.writeString(fmt.Sprintf("    %d: %s%s", f.ID, required, typeName(f.Type)))
-		sb.writeString(fmt.Sprintf(" %s", f.Name))
-
-		if f.Default != nil {
-			sb.writeString(" = ")
-			printConstTypedValue(sb, f.Default.TypedValue)
-		}
-		printAnnotation(sb, f.Annotations)
-
+		sb.writeString("    ")
+		printField(sb, f)
 		sb.writeString("\n")
 	}
 	sb.writeString("} ")
 	printAnnotation(sb, s.Annotations)
 	sb.writeString("\n\n")
+}
+
+// printField writes a struct field, a function argument or a throws entry:
+// id, requiredness, type, name, default value and annotations.
+func printField(sb *stringBuilder, f *parser.Field) {
+	required := ""
+	if f.Requiredness.IsOptional() {
+		required = "optional "
+	} else if f.Requiredness.IsRequired() {
+		required = "required "
+	}
+	sb.writeString(fmt.Sprintf("%d: %s%s", f.ID, required, typeName(f.Type)))
+	sb.writeString(fmt.Sprintf(" %s", f.Name))
+
+	if f.Default != nil {
+		sb.writeString(" = ")
+		printConstTypedValue(sb, f.Default.TypedValue)
+	}
+	printAnnotation(sb, f.Annotations)
 }
 
 func printConstTypedValue(sb *stringBuilder, ctv *parser.ConstTypedValue) {
